@@ -16,23 +16,25 @@ import (
 )
 
 var (
-	flagProp    = flag.String("prop", "", "property id")
-	flagTier    = flag.String("tier", "quick", "quick | thorough")
-	flagSeed    = flag.Uint64("seed", 1, "base seed (VERIF_SEED)")
-	flagShard   = flag.String("shard", "0/1", "this worker's shard i/n")
-	flagRuns    = flag.Int64("runs", 0, "number of seeded runs over all shards")
-	flagFrom    = flag.Int64("from", 0, "first run index (restart after an early stop)")
-	flagCorpus  = flag.String("corpus", "", "comma separated label=dir corpus roots")
-	flagReplay  = flag.String("replay", "", "replay file to execute")
-	flagRaceLog = flag.String("racelog", "", "GORACE log_path prefix of this process")
-	flagSites   = flag.String("sites", "", "site table written by the instrumenter")
-	flagBudget  = flag.Duration("budget", 0, "stop after this much wall time (0 = none)")
-	flagSelf    = flag.Bool("selftest", false, "print one event log line per run (determinism self-test)")
-	flagMode    = flag.String("mode", "", "sub-mode of the property's check")
-	flagMaxFail = flag.Int("maxfail", 3, "stop after this many failures")
-	flagRefFile = flag.String("ref", "", "C12: reference table written by a -mode ref run in another process")
-	flagLibGo   = flag.Bool("libgo", false, "the code under test starts goroutines: run every call into it as a simulator task, so that its goroutines are scheduled by the simulator too")
-	flagCands   = flag.String("candidates", "", "print one-step reductions of the scenario in this replay file, one JSON per line")
+	flagProp     = flag.String("prop", "", "property id")
+	flagTier     = flag.String("tier", "quick", "quick | thorough")
+	flagSeed     = flag.Uint64("seed", 1, "base seed (VERIF_SEED)")
+	flagShard    = flag.String("shard", "0/1", "this worker's shard i/n")
+	flagRuns     = flag.Int64("runs", 0, "number of seeded runs over all shards")
+	flagFrom     = flag.Int64("from", 0, "first run index (restart after an early stop)")
+	flagCorpus   = flag.String("corpus", "", "comma separated label=dir corpus roots")
+	flagReplay   = flag.String("replay", "", "replay file to execute")
+	flagRaceLog  = flag.String("racelog", "", "GORACE log_path prefix of this process")
+	flagSites    = flag.String("sites", "", "site table written by the instrumenter")
+	flagBudget   = flag.Duration("budget", 0, "stop after this much wall time (0 = none)")
+	flagSelf     = flag.Bool("selftest", false, "print one event log line per run (determinism self-test)")
+	flagMode     = flag.String("mode", "", "sub-mode of the property's check")
+	flagMaxFail  = flag.Int("maxfail", 3, "stop after this many failures")
+	flagRefFile  = flag.String("ref", "", "C12: reference table written by a -mode ref run in another process")
+	flagLibGo    = flag.Bool("libgo", false, "the code under test starts goroutines: run every call into it as a simulator task, so that its goroutines are scheduled by the simulator too")
+	flagMaxRuns  = flag.Int("maxruns", 0, "exit (asking to be restarted) after this many runs in one process (0 = no limit)")
+	flagProgress = flag.String("progress", "", "file in which the index of the run in progress is kept (read by the driver if this process dies)")
+	flagCands    = flag.String("candidates", "", "print one-step reductions of the scenario in this replay file, one JSON per line")
 )
 
 var (
@@ -240,4 +242,21 @@ func simCall(f func()) {
 			panic(r.Panic)
 		}
 	}
+}
+
+var progressFile *os.File
+
+// noteProgress records the index of the run that is about to start.
+func noteProgress(idx int64) {
+	if *flagProgress == "" {
+		return
+	}
+	if progressFile == nil {
+		f, err := os.OpenFile(*flagProgress, os.O_CREATE|os.O_WRONLY|os.O_TRUNC, 0o644)
+		if err != nil {
+			return
+		}
+		progressFile = f
+	}
+	progressFile.WriteAt([]byte(fmt.Sprintf("%-20d", idx)), 0)
 }
